@@ -1,8 +1,216 @@
 package main
 
-import "errors"
+import (
+	"bytes"
+	"fmt"
+	"go/ast"
+	"go/format"
+	"go/parser"
+	"go/token"
+	"io"
+	"io/fs"
+	"os"
+	"path/filepath"
+	"strings"
+)
 
-// instrument is replaced by the real scratch-copy lock rewriting when C13 is built.
+// instrument builds the scratch copy used by C13 (DESIGN.md §3.4): /repo's working tree is copied
+// to a directory outside /repo and /verif, and in the packages mail (root) and smtp every call of
+// Lock/Unlock/RLock/RUnlock is rewritten into simhook.Lock(&m) etc. The hook IS the rewritten
+// call: if a change to go-mail removes a lock, the hook disappears with it, so the instrumentation
+// can never supply mutual exclusion that the code lacks. Nothing is written to /repo.
+//
+// It returns the scratch directory and an alternative go.mod (replace → scratch) for -modfile.
 func instrument(simDir string) (scratch, modfile string, err error) {
-	return "", "", errors.New("instrumentation not built yet")
+	scratch, err = os.MkdirTemp("", "gomail-instr-")
+	if err != nil {
+		return "", "", err
+	}
+	src := "/repo"
+	err = filepath.WalkDir(src, func(path string, d fs.DirEntry, werr error) error {
+		if werr != nil {
+			return werr
+		}
+		rel, _ := filepath.Rel(src, path)
+		if d.IsDir() {
+			if d.Name() == ".git" {
+				return filepath.SkipDir
+			}
+			return os.MkdirAll(filepath.Join(scratch, rel), 0o755)
+		}
+		if !d.Type().IsRegular() {
+			return nil
+		}
+		return copyFile(path, filepath.Join(scratch, rel))
+	})
+	if err != nil {
+		return scratch, "", err
+	}
+	total := 0
+	for _, dir := range []string{".", "smtp"} {
+		ents, err := os.ReadDir(filepath.Join(scratch, dir))
+		if err != nil {
+			return scratch, "", err
+		}
+		for _, e := range ents {
+			if e.IsDir() || !strings.HasSuffix(e.Name(), ".go") || strings.HasSuffix(e.Name(), "_test.go") {
+				continue
+			}
+			n, err := rewriteLocks(filepath.Join(scratch, dir, e.Name()))
+			if err != nil {
+				return scratch, "", fmt.Errorf("%s: %w", e.Name(), err)
+			}
+			total += n
+		}
+	}
+	if err := os.MkdirAll(filepath.Join(scratch, "simhook"), 0o755); err != nil {
+		return scratch, "", err
+	}
+	if err := os.WriteFile(filepath.Join(scratch, "simhook", "simhook.go"), []byte(simhookSrc), 0o644); err != nil {
+		return scratch, "", err
+	}
+	fmt.Fprintf(os.Stderr, "instrumented scratch copy: %d lock calls rewritten\n", total)
+	mod, err := os.ReadFile(filepath.Join(simDir, "go.mod"))
+	if err != nil {
+		return scratch, "", err
+	}
+	alt := strings.Replace(string(mod), "=> /repo", "=> "+scratch, 1)
+	if alt == string(mod) {
+		return scratch, "", fmt.Errorf("go.mod has no replace directive to /repo")
+	}
+	modfile = filepath.Join(simDir, fmt.Sprintf("instr-%d.mod", os.Getpid()))
+	if err := os.WriteFile(modfile, []byte(alt), 0o644); err != nil {
+		return scratch, "", err
+	}
+	if sum, err := os.ReadFile(filepath.Join(simDir, "go.sum")); err == nil {
+		_ = os.WriteFile(strings.TrimSuffix(modfile, ".mod")+".sum", sum, 0o644)
+	}
+	return scratch, modfile, nil
 }
+
+func copyFile(src, dst string) error {
+	in, err := os.Open(src)
+	if err != nil {
+		return err
+	}
+	defer in.Close()
+	out, err := os.Create(dst)
+	if err != nil {
+		return err
+	}
+	defer out.Close()
+	_, err = io.Copy(out, in)
+	return err
+}
+
+// rewriteLocks rewrites x.Lock() → simhook.Lock(&x) (and Unlock/RLock/RUnlock, also in defer and
+// go statements) in one file and returns the number of rewritten calls.
+func rewriteLocks(path string) (int, error) {
+	fset := token.NewFileSet()
+	f, err := parser.ParseFile(fset, path, nil, parser.ParseComments)
+	if err != nil {
+		return 0, err
+	}
+	n := 0
+	ast.Inspect(f, func(node ast.Node) bool {
+		call, ok := node.(*ast.CallExpr)
+		if !ok || len(call.Args) != 0 {
+			return true
+		}
+		sel, ok := call.Fun.(*ast.SelectorExpr)
+		if !ok {
+			return true
+		}
+		switch sel.Sel.Name {
+		case "Lock", "Unlock", "RLock", "RUnlock":
+		default:
+			return true
+		}
+		recv := sel.X
+		call.Fun = &ast.SelectorExpr{X: ast.NewIdent("simhook"), Sel: ast.NewIdent(sel.Sel.Name)}
+		call.Args = []ast.Expr{&ast.UnaryExpr{Op: token.AND, X: recv}}
+		n++
+		return true
+	})
+	if n == 0 {
+		return 0, nil
+	}
+	// add the import
+	imp := &ast.ImportSpec{Path: &ast.BasicLit{Kind: token.STRING, Value: `"github.com/wneessen/go-mail/simhook"`}}
+	added := false
+	for _, d := range f.Decls {
+		if gd, ok := d.(*ast.GenDecl); ok && gd.Tok == token.IMPORT {
+			gd.Specs = append(gd.Specs, imp)
+			if !gd.Lparen.IsValid() {
+				gd.Lparen = gd.Pos()
+				gd.Rparen = gd.End()
+			}
+			added = true
+			break
+		}
+	}
+	if !added {
+		f.Decls = append([]ast.Decl{&ast.GenDecl{Tok: token.IMPORT, Specs: []ast.Spec{imp}}}, f.Decls...)
+	}
+	f.Imports = append(f.Imports, imp)
+	var buf bytes.Buffer
+	if err := format.Node(&buf, fset, f); err != nil {
+		return 0, err
+	}
+	return n, os.WriteFile(path, buf.Bytes(), 0o644)
+}
+
+const simhookSrc = `// Package simhook exists only in the instrumented scratch copy built for the concurrency
+// check. Every lock operation of the packages mail and smtp goes through it, which makes lock
+// hand-off a scheduling decision of the simulation kernel.
+package simhook
+
+import "unsafe"
+
+type locker interface {
+	Lock()
+	Unlock()
+}
+
+type rlocker interface {
+	RLock()
+	RUnlock()
+}
+
+// Acquire parks the calling task until the lock at addr can be taken (never blocks inside the
+// real mutex); Release tells the kernel the lock is free again and offers a context switch.
+var (
+	Acquire func(addr uintptr, write bool)
+	Release func(addr uintptr, write bool)
+)
+
+func addr(m any) uintptr { return (*[2]uintptr)(unsafe.Pointer(&m))[1] }
+
+func Lock(m locker) {
+	if f := Acquire; f != nil {
+		f(addr(m), true)
+	}
+	m.Lock()
+}
+
+func Unlock(m locker) {
+	m.Unlock()
+	if f := Release; f != nil {
+		f(addr(m), true)
+	}
+}
+
+func RLock(m rlocker) {
+	if f := Acquire; f != nil {
+		f(addr(m), false)
+	}
+	m.RLock()
+}
+
+func RUnlock(m rlocker) {
+	m.RUnlock()
+	if f := Release; f != nil {
+		f(addr(m), false)
+	}
+}
+`
